@@ -11,6 +11,7 @@ def dispatch (line : String) : String :=
   | "getlist" :: args => handleGetList args
   | "fill" :: args => handleFill args
   | "charptr" :: args => handleCharPtr args
+  | "fillchar" :: args => handleFillChar args
   | _ => "bad-op"
 
 partial def loop (h : IO.FS.Stream) (out : IO.FS.Stream) : IO Unit := do
